@@ -321,7 +321,7 @@ func (h *H) Advance(d time.Duration) { h.Clock.Add(d) }
 // value on three consecutive reads at least 250µs apart. It gives up after a generous real-time
 // cap; the caller must treat that as inconclusive.
 func (h *H) Settle(read func() string) bool {
-	deadline := time.Now().Add(3 * time.Second)
+	deadline := time.Now().Add(20 * time.Second)
 	prev, same := "", 0
 	for i := 0; ; i++ {
 		runtime.Gosched()
